@@ -1203,20 +1203,49 @@ def _pipeline_multi(ctx, R, graphs, rules):
   MM = ALG['MIN_MAX_UNIFORM_QUANT']
   reg = tables.registry(ctx)
   KIND = {'fc': 'FULLY_CONNECTED', 'abs': 'CUSTOM', 'sm': 'SOFTMAX'}
+  for g in graphs:
+    for op in g[1]:
+      if op[1] not in KIND:
+        KIND[op[1]] = op[1]          # a README operator named by its TFLite name
   KINDS = list(KIND)
-  F32 = TT['FLOAT32']
+  name_to_code = {getattr(k, 'name', k): v for k, v in tables.module_const(ctx, 'utils.tfl_flatbuffer_utils', 'TFL_OP_NAME_TO_CODE').items()}
+  _code = code
+
+  def code(n):   # pylint: disable=function-redefined
+    if n in BO:
+      return _code(n)
+    if n in name_to_code:
+      return name_to_code[n]       # the repository's own name -> builtin code table (e.g. CONV_2D_TRANSPOSE -> TRANSPOSE_CONV)
+    raise index.AnalysisError(f'{R}: no builtin operator code for {n}')
+  F32, I32 = TT['FLOAT32'], TT['INT32']
+  CP = {e.name: e for e in tables.enum(ctx, 'qtyping:ComputePrecision')}
+  wonly = tables.construct(ctx, common.OPCFG, weight_tensor_config=tables.tensor_config(ctx, num_bits=8), compute_precision=CP['FLOAT'], explicit_dequantize=True)
+  # tensor spec: (name, kind[, shape]); kind 0 = float runtime, 1 = float constant, 'i' = int32 constant (shape / axis / indices), 'r' = int32 runtime
+  def tspec(t):
+    n, k = t[0], t[1]
+    shape = list(t[2]) if len(t) > 2 else ([2, 2] if k == 1 else [1, 2])
+    return n, k, shape
   # weights and runtime contents depend on the tensor NAME only, so that a subgraph sees the same numbers alone and in company
   seed = lambda n: sum(ord(c) for c in n) % 11
-  wts = {n: NdArr((2, 2), [5 + seed(n), -7, 2, 9 - seed(n)]) for g in graphs for n, c in g[0] if c}
+
+  def weight(n, shape):
+    cnt = 1
+    for s_ in shape:
+      cnt *= s_
+    return NdArr(shape, [((j * 5 + seed(n)) % 13) - 6 for j in range(cnt)])
+  wts = {tspec(t)[0]: weight(tspec(t)[0], tspec(t)[2]) for g in graphs for t in g[0] if tspec(t)[1] == 1}
+  idx = {tspec(t)[0]: NdArr(tspec(t)[2], [1] * max(1, len(tspec(t)[2]) and __import__('functools').reduce(lambda a, b: a * b, tspec(t)[2], 1))) for g in graphs for t in g[0] if tspec(t)[1] == 'i'}
 
   def model():
     sgs, bufs = [], [Obj('x:BufferT', {'data': None, 'offset': 0, 'size': 0})]
     for gi, (tensors, ops, gin, gout) in enumerate(graphs):
       ts = []
-      for n, c in tensors:
-        bufs.append(Obj('x:BufferT', {'data': (f'float-bytes-of-{n}' if c else None), 'offset': 0, 'size': 0}))
-        ts.append(Obj('x:TensorT', {'name': n.encode(), 'buffer': len(bufs) - 1, 'type': F32, 'shape': [2, 2] if c else [1, 2], 'quantization': None}))
-      os_ = [Obj('x:OperatorT', {'label': lab, 'opcodeIndex': KINDS.index(k), 'inputs': list(i), 'outputs': list(o), 'builtinOptions': None}) for lab, k, i, o in ops]
+      for t in tensors:
+        n, c, shape = tspec(t)
+        bufs.append(Obj('x:BufferT', {'data': (f'float-bytes-of-{n}' if c == 1 else f'int-bytes-of-{n}' if c == 'i' else None), 'offset': 0, 'size': 0}))
+        ts.append(Obj('x:TensorT', {'name': n.encode(), 'buffer': len(bufs) - 1, 'type': I32 if c in ('i', 'r') else F32, 'shape': shape, 'quantization': None}))
+      os_ = [Obj('x:OperatorT', {'label': op[0], 'opcodeIndex': KINDS.index(op[1]), 'inputs': list(op[2]), 'outputs': list(op[3]),
+                                 'builtinOptions': (Obj('x:Options', dict(op[4])) if len(op) > 4 else None)}) for op in ops]
       sgs.append(Obj('x:SubGraphT', {'tensors': ts, 'operators': os_, 'inputs': list(gin), 'outputs': list(gout), 'name': f'sg{gi}'.encode()}))
     return Obj('x:ModelT', {'subgraphs': sgs, 'buffers': bufs, 'signatureDefs': None,
                             'operatorCodes': [Obj('x:OperatorCodeT', {'builtinCode': code(KIND[k])}) for k in KINDS]})
@@ -1227,12 +1256,18 @@ def _pipeline_multi(ctx, R, graphs, rules):
 
   def details(a, k, kind=None):
     g = a[0] if a else k.get('subgraph_index', 0)
-    return [{'name': n, 'index': i, 'dtype': 'float32', 'quantization_parameters': {'scales': [], 'zero_points': [], 'quantized_dimension': 0}} for i, (n, c) in enumerate(graphs[g][0])]
+    return [{'name': tspec(t)[0], 'index': i, 'dtype': 'float32', 'quantization_parameters': {'scales': [], 'zero_points': [], 'quantized_dimension': 0}} for i, t in enumerate(graphs[g][0])]
 
   def get_tensor(a, k, kind=None):
     g = a[1] if len(a) > 1 else k.get('subgraph_index', 0)
-    n = graphs[g][0][a[0]][0]
-    return wts[n] if n in wts else content(n, cur['k'])
+    n, c, shape = tspec(graphs[g][0][a[0]])
+    if n in wts:
+      return wts[n]
+    if n in idx:
+      return idx[n]
+    if c == 'r':
+      return NdArr(shape, [0] * len(NdArr(shape, [0] * __import__('functools').reduce(lambda x, y: x * y, shape, 1)).data))
+    return content(n, cur['k'])
   interp = Obj('x:Interpreter', {'reset_all_variables': _StandIn(lambda a, k, kind=None: None, 'r'), 'get_tensor_details': _StandIn(details, 'd'), 'get_tensor': _StandIn(get_tensor, 't')})
 
   def invoke(a, k):
@@ -1248,7 +1283,7 @@ def _pipeline_multi(ctx, R, graphs, rules):
   def tensor_data(a, k):
     t = a[0].fields
     nm = t['name'].decode() if isinstance(t.get('name'), bytes) else None
-    return wts.get(nm)
+    return wts.get(nm) if nm in wts else idx.get(nm)
   hooks = {
       c11.CHECK_FQ: (lambda a, k: c11._mk_interp(ctx).hooks[c11.CHECK_FQ](a, k)),  # pylint: disable=protected-access
       'algorithm_manager.get_init_qsv_func': lambda a, k: lookup(a[0], a[1], 'init'),
@@ -1266,7 +1301,7 @@ def _pipeline_multi(ctx, R, graphs, rules):
   store = {}
   for rx, kind, cfg in rules:
     opn = OP[KIND[kind]] if kind in KIND else OP[kind if kind != '*' else 'ALL_SUPPORTED']
-    store.setdefault(rx, []).append(c11._recipe(rx, opn, MM, srq if cfg == 'srq' else drq))  # pylint: disable=protected-access
+    store.setdefault(rx, []).append(c11._recipe(rx, opn, MM, {'srq': srq, 'drq': drq, 'wonly': wonly}[cfg]))  # pylint: disable=protected-access
   rm = Obj('recipe_manager:RecipeManager', {'_scope_configs': store})
   calo = Obj(CAL, {'_flatbuffer_model': model(), '_tfl_interpreter': interp, '_tensor_content_map': {}, '_model_qsvs': {}, '_cached_output': []})
   for gi in range(len(graphs)):
@@ -1421,3 +1456,124 @@ def rule_no_swallowed_errors(ctx, R: str):
                   f'{f.name} catches {ty} raised by {tried} and carries on: what the pipeline refuses (missing statistics, unsupported config) is silently turned into another result')
   if len(seen_allowed) < 2:
     raise index.AnalysisError(f'{R}: the documented skip handlers were not found ({sorted(seen_allowed)})')
+
+
+# ------------------------------------------------ per-operator sweep (README table)
+def rule_operator_sweep(ctx, R: str):
+  """Every operator of the README coverage table, alone in a minimal graph with
+  the operand layout of the TFLite schema (weights, bias, int32 shape / axis /
+  index operands), pushed through the whole pipeline under a `*` rule of each
+  mode. Whether the mode applies to the operator is taken from the policy
+  check (C13 decides that check against the policy text). Oracle: no stage
+  raises; a selected operator's float activations become INT8 (static range) or
+  stay float (dynamic range / weight-only); its weight becomes an INT8 constant
+  (read through a DEQUANTIZE when weight-only); a static-range bias becomes an
+  INT32 constant; int32 operands are never touched; an operator the mode does
+  not apply to stays float."""
+  from sa import consteval  # pylint: disable=g-import-not-at-top
+  from sa.consteval import Ext  # pylint: disable=g-import-not-at-top
+  from sa.rules import c11  # pylint: disable=g-import-not-at-top
+  rs = ctx.rule(R, 'every README operator x {static, dynamic, weight-only} * rule: the pipeline raises nothing and the operator ends up typed as its mode requires (int32 operands untouched, bias INT32)', floor=15)
+  tg = ctx.repo.func('transformation_performer:TransformationPerformer.transform_graph')
+  TT = consteval.schema_enum('TensorType')
+  F32, I8, I32 = TT['FLOAT32'], TT['INT8'], TT['INT32']
+  OP, ALG, drq, srq, bad = c11._domain(ctx)  # pylint: disable=protected-access
+  MM = ALG['MIN_MAX_UNIFORM_QUANT']
+  CP = {e.name: e for e in tables.enum(ctx, 'qtyping:ComputePrecision')}
+  wonly = tables.construct(ctx, common.OPCFG, weight_tensor_config=tables.tensor_config(ctx, num_bits=8), compute_precision=CP['FLOAT'], explicit_dequantize=True)
+  CFG = {'srq': srq, 'drq': drq, 'wonly': wonly}
+  X, Y, O = ('x', 0), ('y', 0), ('out', 0)
+  unary = lambda k: ([X, O], [(k, k, [0], [1])], [0], [1])
+  binary = lambda k, opts=None: ([X, Y, O], [(k, k, [0, 1], [2]) + ((opts,) if opts else ())], [0, 1], [2])
+  graphs = {
+      'FULLY_CONNECTED': ([X, ('w', 1, (2, 2)), ('b', 1, (2,)), O], [('FULLY_CONNECTED', 'FULLY_CONNECTED', [0, 1, 2], [3])], [0], [3]),
+      'CONV_2D': ([('x', 0, (1, 2, 2, 1)), ('w', 1, (2, 1, 1, 1)), ('b', 1, (2,)), ('out', 0, (1, 2, 2, 2))], [('CONV_2D', 'CONV_2D', [0, 1, 2], [3])], [0], [3]),
+      'DEPTHWISE_CONV_2D': ([('x', 0, (1, 2, 2, 2)), ('w', 1, (1, 1, 1, 2)), ('b', 1, (2,)), ('out', 0, (1, 2, 2, 2))], [('DEPTHWISE_CONV_2D', 'DEPTHWISE_CONV_2D', [0, 1, 2], [3])], [0], [3]),
+      'CONV_2D_TRANSPOSE': ([('s', 'i', (4,)), ('w', 1, (2, 1, 1, 1)), ('x', 0, (1, 2, 2, 1)), ('b', 1, (2,)), ('out', 0, (1, 2, 2, 2))], [('CONV_2D_TRANSPOSE', 'CONV_2D_TRANSPOSE', [0, 1, 2, 3], [4])], [2], [4]),
+      'EMBEDDING_LOOKUP': ([('ids', 'r', (2,)), ('w', 1, (4, 2)), O], [('EMBEDDING_LOOKUP', 'EMBEDDING_LOOKUP', [0, 1], [2])], [0], [2]),
+      'BATCH_MATMUL': binary('BATCH_MATMUL', {'adjX': False, 'adjY': False}),
+      'BATCH_MATMUL (constant rhs)': ([X, ('w', 1, (2, 2)), O], [('BATCH_MATMUL', 'BATCH_MATMUL', [0, 1], [2], {'adjX': False, 'adjY': False})], [0], [2]),
+      'RESHAPE': ([X, ('shape', 'i', (2,)), O], [('RESHAPE', 'RESHAPE', [0, 1], [2])], [0], [2]),
+      'TRANSPOSE': ([X, ('perm', 'i', (2,)), O], [('TRANSPOSE', 'TRANSPOSE', [0, 1], [2])], [0], [2]),
+      'MEAN': ([X, ('axis', 'i', (1,)), O], [('MEAN', 'MEAN', [0, 1], [2])], [0], [2]),
+      'STRIDED_SLICE': ([X, ('b', 'i', (2,)), ('e', 'i', (2,)), ('st', 'i', (2,)), O], [('STRIDED_SLICE', 'STRIDED_SLICE', [0, 1, 2, 3], [4])], [0], [4]),
+      'SPLIT': ([('axis', 'i', ()), X, ('o1', 0), ('o2', 0)], [('SPLIT', 'SPLIT', [0, 1], [2, 3])], [1], [2, 3]),
+      'CONCATENATION': binary('CONCATENATION'),
+  }
+  for k in ('AVERAGE_POOL_2D', 'SOFTMAX', 'TANH', 'LOGISTIC', 'GELU', 'RSQRT'):
+    graphs[k] = unary(k)
+  for k in ('ADD', 'SUB', 'MUL'):
+    graphs[k] = binary(k)
+  missing = [o for o in oracles.SUPPORTED_OPS if o not in graphs]
+  if missing:
+    raise index.AnalysisError(f'{R}: no minimal graph for README operators {missing}')
+  tval = lambda t: t.value if isinstance(t, Ext) else t
+  rs.exhaustive = True
+  for gname, g in graphs.items():
+    opname = g[1][0][1]
+    if opname not in OP:
+      raise index.AnalysisError(f'{R}: operator {opname} of the README table is not a TFLOperationName member')
+    ctx.instance(R)
+    for mode in ('srq', 'drq', 'wonly'):
+      applies, _ = tables.accepts(ctx, MM, OP[opname], CFG[mode])
+      label = f'{gname}, * rule {mode}' + ('' if applies else ' (not supported for this operator: must stay float)')
+      m, why = _pipeline_multi(ctx, R, [g], [('.*', opname, mode)])
+      if m is None:
+        ctx.check(R, False, tg.node, tg, label, f'the pipeline fails for a README operator under a {mode} rule: {why}')
+        continue
+      sg = m.fields['subgraphs'][0]
+      T = sg.fields['tensors']
+      tensors = g[0]
+      problems = []
+      op = next((o for o in sg.fields['operators'] if o.fields['label'] == opname), None)
+      if op is None:
+        ctx.check(R, False, tg.node, tg, label, 'the operator disappeared from the graph')
+        continue
+      md = mode if applies else None
+      bad_idx = [x for x in list(op.fields['inputs']) + list(op.fields['outputs']) + list(sg.fields['inputs']) + list(sg.fields['outputs']) if x != -1 and not (isinstance(x, int) and 0 <= x < len(T))]
+      if bad_idx:
+        ctx.check(R, False, tg.node, tg, label, f'the graph refers to tensors {bad_idx} that do not exist')
+        continue
+      for orig_t, cur_t in zip(g[1][0][2], op.fields['inputs']):
+        spec = tensors[orig_t]
+        kind = spec[1]
+        ty = tval(T[cur_t].fields['type'])
+        nm = T[cur_t].fields['name']
+        if kind in ('i', 'r'):
+          if cur_t != orig_t or ty != I32 or T[cur_t].fields['quantization'] is not None:
+            problems.append(f'int32 operand {nm} was touched (type {ty})')
+        elif kind == 1:
+          is_bias = spec[0] == 'b'
+          if md == 'srq':
+            want = I32 if is_bias else I8
+            if ty != want or T[cur_t].fields['quantization'] is None:
+              problems.append(f'{"bias" if is_bias else "weight"} {nm} has type {ty}, expected {want} with parameters')
+          elif md == 'drq':
+            if is_bias:
+              if ty != F32:
+                problems.append(f'bias {nm} has type {ty} under dynamic range, expected float')
+            elif ty != I8:
+              problems.append(f'weight {nm} has type {ty} under dynamic range, expected INT8')
+          elif md == 'wonly':
+            if is_bias:
+              if ty != F32:
+                problems.append(f'bias {nm} has type {ty} under weight-only, expected float')
+            else:
+              src = next((q for q in sg.fields['operators'] if cur_t in q.fields['outputs']), None)
+              if not (ty == F32 and src is not None and src.fields['label'] is None and tval(T[src.fields['inputs'][0]].fields['type']) == I8):
+                problems.append(f'weight {nm} must be read through a DEQUANTIZE of an INT8 constant (type {ty})')
+          elif ty != F32 or T[cur_t].fields['quantization'] is not None:
+            problems.append(f'constant {nm} has type {ty} although the mode does not apply')
+        else:
+          want = I8 if md == 'srq' else F32
+          if ty != want:
+            problems.append(f'activation input {nm} has type {ty}, expected {want}')
+      for cur_t in op.fields['outputs']:
+        want = I8 if md == 'srq' else F32
+        if tval(T[cur_t].fields['type']) != want:
+          problems.append(f'output {T[cur_t].fields["name"]} has type {tval(T[cur_t].fields["type"])}, expected {want}')
+      for t in list(sg.fields['inputs']) + list(sg.fields['outputs']):
+        spec_kind = next((s[1] for s in tensors if s[0].encode() == T[t].fields['name']), 0)
+        if spec_kind in (0,) and tval(T[t].fields['type']) != F32:
+          problems.append(f'graph input/output {T[t].fields["name"]} is not float although INPUT / OUTPUT is not selected')
+      ctx.check(R, not problems, tg.node, tg, label, '; '.join(problems[:3]))
